@@ -5,7 +5,6 @@ import (
 	"go/ast"
 	"go/token"
 	"go/types"
-	"regexp"
 	"sort"
 	"strings"
 )
@@ -14,7 +13,7 @@ const geojsonPath = "github.com/tidwall/geojson"
 
 func init() {
 	register(&Rule{ID: "R19.delta", Props: []string{"C19", "C14", "C02", "C01"}, Floor: 12,
-		Text: "bookkeeping symmetry in internal/collection: the two removal sites (the prev != nil block of setFill, the body of Delete) and the insertion site (the tail of setFill) are abstracted into action sets (field, operation, operand, guard, measure); the two removal sites agree, removal is the exact inverse of insertion (Delete↔Insert/Set, --↔++, -=↔+= with the same guards and measures on the respective object), and every secondary field of Collection is covered",
+		Text: "effect tables of the bookkeeping in internal/collection: setFill(prev, obj) and Delete are evaluated abstractly in every situation of the two objects (every assignment of truth values to the conditions the code tests on them: nil, spatial, empty geometry, deadline), helpers inlined; per counter the effect is a linear form over symbolic measures (also when a net delta is accumulated in a local), per index the ordered operations. In every situation: what setFill does for the new object is independent of the previous one and vice versa; setFill's effect for the previous object equals Delete's; it is the exact inverse of the insertion of an object in the same situation; in an index the previous object is removed before the new one is entered; every secondary field of Collection is maintained",
 		Run:  ruleDelta})
 	register(&Rule{ID: "R19.who-writes", Props: []string{"C19"}, Floor: 8,
 		Text: "the fields of Collection are written only by New, Set, setFill, Delete and the index helpers; the fields of object.Object (and its point/geo layouts) only by the constructors: indexed objects are immutable, so no index keyed by id, value, deadline or rectangle can go stale",
@@ -35,324 +34,9 @@ func init() {
 		Text: "in fenceMatchNearbys the append to the result is dominated by the not-greater edge of a comparison d > roam.meters where d is a Distance between the moved object (parameter) and the iterated candidate; the reported meters is a Distance between the same two; fenceMatchRoam recomputes the faraway distances against the new object",
 		Run:  ruleRadiusOperands})
 	register(&Rule{ID: "R20.pattern-filter", Props: []string{"C20"}, Floor: 2,
-		Text: "in fenceMatchNearbys the id filter uses glob.Match on roam.id when roam.pattern and equality otherwise, and the append is dominated by the filter being true",
+		Text: "scenario evaluation of the candidate callback of fenceMatchNearbys (predicates it calls are evaluated in the same situation): with roam.pattern true and glob.Match(roam.id, …) false, and with roam.pattern false and roam.id == … false, no path reaches the append; with the match (respectively the equality) true it does; and what roam.id is matched against is the candidate's id",
 		Run:  rulePatternFilter})
 }
-
-// ---------------------------------------------------------------------------
-// R19.delta
-
-type bkAction struct {
-	Field   string
-	Op      string // inc, dec, add, sub, Delete, Set, Insert ...
-	Guards  string
-	Measure string
-	Pos     token.Pos
-}
-
-func (a bkAction) String() string {
-	return fmt.Sprintf("%s.%s[%s]{%s}", a.Field, a.Op, a.Measure, a.Guards)
-}
-
-type bkExtractor struct {
-	c      *Ctx
-	info   *types.Info
-	recv   types.Object
-	fields map[*types.Var]string
-	depth  int
-}
-
-func normExpr(e ast.Expr, operand string) string {
-	s := exprStr(e)
-	if operand == "" {
-		return s
-	}
-	re := regexp.MustCompile(`\b` + regexp.QuoteMeta(operand) + `\b`)
-	return re.ReplaceAllString(s, "$$")
-}
-
-// recvField: e is <recv>.<field> for a Collection field.
-func (x *bkExtractor) recvField(e ast.Expr) string {
-	se, ok := ast.Unparen(e).(*ast.SelectorExpr)
-	if !ok {
-		return ""
-	}
-	id, ok := ast.Unparen(se.X).(*ast.Ident)
-	if !ok || x.info.ObjectOf(id) != x.recv {
-		return ""
-	}
-	if f := selField(x.info, se); f != nil {
-		return x.fields[f]
-	}
-	return ""
-}
-
-func (x *bkExtractor) walk(stmts []ast.Stmt, operand string, guards []string, out *[]bkAction) {
-	gs := func() string {
-		g := append([]string(nil), guards...)
-		sort.Strings(g)
-		// dedupe
-		var d []string
-		for i, s := range g {
-			if i == 0 || g[i-1] != s {
-				d = append(d, s)
-			}
-		}
-		return strings.Join(d, " && ")
-	}
-	for _, st := range stmts {
-		switch s := st.(type) {
-		case *ast.IfStmt:
-			// a conjunction contributes its conjuncts one by one (so that nesting two tests and
-			// writing them as one && are the same guard); the else branch negates the sorted conjunction
-			var conj []string
-			var flat func(e ast.Expr)
-			flat = func(e ast.Expr) {
-				if be, ok := ast.Unparen(e).(*ast.BinaryExpr); ok && be.Op == token.LAND {
-					flat(be.X)
-					flat(be.Y)
-					return
-				}
-				conj = append(conj, normExpr(ast.Unparen(e), operand))
-			}
-			flat(s.Cond)
-			sort.Strings(conj)
-			cond := strings.Join(conj, " && ")
-			// only conditions on the operand are bookkeeping guards
-			x.walk(s.Body.List, operand, append(append([]string(nil), guards...), conj...), out)
-			if s.Else != nil {
-				neg := "!(" + cond + ")"
-				switch e := s.Else.(type) {
-				case *ast.BlockStmt:
-					x.walk(e.List, operand, append(append([]string(nil), guards...), neg), out)
-				case *ast.IfStmt:
-					x.walk([]ast.Stmt{e}, operand, append(append([]string(nil), guards...), neg), out)
-				}
-			}
-		case *ast.IncDecStmt:
-			if f := x.recvField(s.X); f != "" {
-				op := "inc"
-				if s.Tok == token.DEC {
-					op = "dec"
-				}
-				*out = append(*out, bkAction{f, op, gs(), "", s.Pos()})
-			}
-		case *ast.AssignStmt:
-			if len(s.Lhs) == 1 && len(s.Rhs) == 1 {
-				if f := x.recvField(s.Lhs[0]); f != "" {
-					switch s.Tok {
-					case token.ADD_ASSIGN:
-						*out = append(*out, bkAction{f, "add", gs(), normExpr(s.Rhs[0], operand), s.Pos()})
-					case token.SUB_ASSIGN:
-						*out = append(*out, bkAction{f, "sub", gs(), normExpr(s.Rhs[0], operand), s.Pos()})
-					default:
-						*out = append(*out, bkAction{f, "assign", gs(), normExpr(s.Rhs[0], operand), s.Pos()})
-					}
-				}
-			}
-		case *ast.ExprStmt:
-			call, ok := ast.Unparen(s.X).(*ast.CallExpr)
-			if !ok {
-				continue
-			}
-			se, ok := ast.Unparen(call.Fun).(*ast.SelectorExpr)
-			if !ok {
-				continue
-			}
-			if f := x.recvField(se.X); f != "" {
-				*out = append(*out, bkAction{f, se.Sel.Name, gs(), strings.Join(mapExprs(call.Args, operand), ","), s.Pos()})
-				continue
-			}
-			// helper method on the receiver: inline with parameter substitution
-			if id, ok := ast.Unparen(se.X).(*ast.Ident); ok && x.info.ObjectOf(id) == x.recv && x.depth < 3 {
-				if f := callee(x.info, call); f != nil {
-					if fi := x.c.FuncOf(f); fi != nil && len(call.Args) == 1 && len(fi.Decl.Type.Params.List) == 1 && len(fi.Decl.Type.Params.List[0].Names) == 1 {
-						arg, isId := ast.Unparen(call.Args[0]).(*ast.Ident)
-						if isId && arg.Name == operand {
-							sub := &bkExtractor{c: x.c, info: fi.Info(), fields: x.fields, depth: x.depth + 1}
-							if fi.Decl.Recv != nil && len(fi.Decl.Recv.List[0].Names) > 0 {
-								sub.recv = fi.Info().ObjectOf(fi.Decl.Recv.List[0].Names[0])
-							}
-							sub.walk(fi.Decl.Body.List, fi.Decl.Type.Params.List[0].Names[0].Name, guards, out)
-						}
-					}
-				}
-			}
-		case *ast.BlockStmt:
-			x.walk(s.List, operand, guards, out)
-		}
-	}
-}
-
-func mapExprs(es []ast.Expr, operand string) []string {
-	var out []string
-	for _, e := range es {
-		out = append(out, normExpr(e, operand))
-	}
-	return out
-}
-
-var bkInverse = map[string]string{"dec": "inc", "sub": "add", "Delete": "Insert|Set"}
-
-func ruleDelta(c *Ctx) {
-	setFill := c.Func("internal/collection", "Collection", "setFill")
-	del := c.Func("internal/collection", "Collection", "Delete")
-	if setFill == nil || del == nil {
-		c.und("anchors", 0, "Collection.setFill or Collection.Delete not found")
-		return
-	}
-	colT := c.Pkgs["internal/collection"].Types.Scope().Lookup("Collection")
-	st := colT.Type().Underlying().(*types.Struct)
-	fields := map[*types.Var]string{}
-	var secondary []string
-	for i := 0; i < st.NumFields(); i++ {
-		fields[st.Field(i)] = st.Field(i).Name()
-		if st.Field(i).Name() != "objs" {
-			secondary = append(secondary, st.Field(i).Name())
-		}
-	}
-	mk := func(fi *FuncInfo) *bkExtractor {
-		x := &bkExtractor{c: c, info: fi.Info(), fields: fields}
-		if fi.Decl.Recv != nil && len(fi.Decl.Recv.List[0].Names) > 0 {
-			x.recv = fi.Info().ObjectOf(fi.Decl.Recv.List[0].Names[0])
-		}
-		return x
-	}
-	// setFill(prev, obj): removal = the `if prev != nil` block; insertion = the rest
-	params := setFill.Decl.Type.Params.List
-	var pnames []string
-	for _, p := range params {
-		for _, n := range p.Names {
-			pnames = append(pnames, n.Name)
-		}
-	}
-	if len(pnames) != 2 {
-		c.und("setFill-shape", setFill.Decl.Pos(), "setFill is expected to take (prev, obj)")
-		return
-	}
-	prevName, objName := pnames[0], pnames[1]
-	var removalA, insertion []bkAction
-	xs := mk(setFill)
-	var rest []ast.Stmt
-	for _, s := range setFill.Decl.Body.List {
-		if ifs, ok := s.(*ast.IfStmt); ok && normExpr(ifs.Cond, prevName) == "$ != nil" && ifs.Else == nil {
-			xs.walk(ifs.Body.List, prevName, nil, &removalA)
-			continue
-		}
-		rest = append(rest, s)
-	}
-	xs.walk(rest, objName, nil, &insertion)
-	// Delete(id): removal with operand = the variable assigned from c.objs.Delete
-	var removalB []bkAction
-	xd := mk(del)
-	var operand string
-	ast.Inspect(del.Decl.Body, func(n ast.Node) bool {
-		if as, ok := n.(*ast.AssignStmt); ok && len(as.Rhs) == 1 {
-			if call, ok := ast.Unparen(as.Rhs[0]).(*ast.CallExpr); ok {
-				if se, ok := ast.Unparen(call.Fun).(*ast.SelectorExpr); ok && se.Sel.Name == "Delete" && xd.recvField(se.X) == "objs" {
-					if id, ok := as.Lhs[0].(*ast.Ident); ok {
-						operand = id.Name
-					}
-				}
-			}
-		}
-		return true
-	})
-	if operand == "" {
-		c.bad("Delete-shape", del.Decl.Pos(), "Collection.Delete does not remove from the primary map objs")
-		return
-	}
-	var delBody []ast.Stmt
-	for _, s := range del.Decl.Body.List {
-		// skip the early `if prev == nil { return nil }`
-		if ifs, ok := s.(*ast.IfStmt); ok && normExpr(ifs.Cond, operand) == "$ == nil" {
-			continue
-		}
-		delBody = append(delBody, s)
-	}
-	xd.walk(delBody, operand, nil, &removalB)
-
-	c.stat("removal_actions_setFill", len(removalA))
-	c.stat("removal_actions_Delete", len(removalB))
-	c.stat("insertion_actions", len(insertion))
-	key := func(a bkAction) string { return a.Field + "|" + a.Op + "|" + a.Guards + "|" + a.Measure }
-	// a redundant outer guard equal to a helper's guard is harmless: compare guard sets after dedupe (done in gs())
-	setA, setB := map[string]bkAction{}, map[string]bkAction{}
-	for _, a := range removalA {
-		setA[key(a)] = a
-	}
-	for _, a := range removalB {
-		setB[key(a)] = a
-	}
-	for k, a := range setA {
-		if _, ok := setB[k]; ok {
-			c.ok("removal-siblings/"+a.String(), a.Pos, true, "both removal sites perform it")
-		} else {
-			c.bad("removal-siblings/"+a.String(), a.Pos, "setFill removes the previous object with %s but Delete has no identical action (Delete has %s)", a, fieldActions(removalB, a.Field))
-		}
-	}
-	for k, a := range setB {
-		if _, ok := setA[k]; !ok {
-			c.bad("removal-siblings/"+a.String(), a.Pos, "Delete performs %s but the replace path of setFill has no identical action (setFill has %s)", a, fieldActions(removalA, a.Field))
-		}
-	}
-	// removal (setFill) vs insertion: inverse
-	for _, a := range removalA {
-		inv := bkInverse[a.Op]
-		found := false
-		for _, b := range insertion {
-			if b.Field == a.Field && b.Guards == a.Guards && b.Measure == a.Measure && inv != "" && strings.Contains("|"+inv+"|", "|"+b.Op+"|") {
-				found = true
-			}
-		}
-		if found {
-			c.ok("inverse/"+a.String(), a.Pos, true, "insertion has the inverse action with the same guard and measure on the new object")
-		} else {
-			c.bad("inverse/"+a.String(), a.Pos, "removal action %s has no inverse among the insertion actions (%s): the counter or index drifts on overwrite", a, fieldActions(insertion, a.Field))
-		}
-	}
-	for _, b := range insertion {
-		found := false
-		for _, a := range removalA {
-			if b.Field == a.Field && b.Guards == a.Guards && b.Measure == a.Measure {
-				found = true
-			}
-		}
-		if !found {
-			c.bad("inverse/"+b.String(), b.Pos, "insertion action %s has no matching removal action (%s)", b, fieldActions(removalA, b.Field))
-		}
-	}
-	// coverage: every secondary field appears in removal and insertion
-	for _, f := range secondary {
-		inR, inI := false, false
-		for _, a := range removalA {
-			if a.Field == f {
-				inR = true
-			}
-		}
-		for _, a := range insertion {
-			if a.Field == f {
-				inI = true
-			}
-		}
-		c.check(inR && inI, "covered/"+f, setFill.Decl.Pos(), "maintained on removal and insertion", fmt.Sprintf("Collection.%s is not maintained by setFill (removal: %v, insertion: %v)", f, inR, inI))
-	}
-}
-
-func fieldActions(as []bkAction, f string) string {
-	var s []string
-	for _, a := range as {
-		if a.Field == f {
-			s = append(s, a.String())
-		}
-	}
-	if len(s) == 0 {
-		return "nothing for " + f
-	}
-	return strings.Join(s, "; ")
-}
-
-// ---------------------------------------------------------------------------
 
 func ruleWhoWrites(c *Ctx) {
 	allowedCol := map[string]bool{"New": true, "Set": true, "setFill": true, "Delete": true, "indexInsert": true, "indexDelete": true}
@@ -934,64 +618,124 @@ func rulePatternFilter(c *Ctx) {
 	pattern := c.Field("internal/server", "roamSwitches", "pattern")
 	roamID := c.Field("internal/server", "roamSwitches", "id")
 	fg := newFlowGraph(info, lit.Body)
-	var filterVar types.Object
-	okGlob, okEq := false, false
-	for _, l := range fg.Find(func(n ast.Node) bool { _, ok := n.(*ast.AssignStmt); return ok }) {
-		as := l.Node.(*ast.AssignStmt)
-		if len(as.Rhs) != 1 {
-			continue
-		}
-		facts := fg.DominatingFacts(l)
-		underPattern := func(neg bool) bool {
-			for _, f := range facts {
-				if selField(info, f.E) == pattern && f.Neg == neg {
-					return true
+	isAppend := func(l Loc) bool {
+		hit := false
+		inspectNoLit(l.Node, func(n ast.Node) bool {
+			if call, ok := n.(*ast.CallExpr); ok {
+				if id, ok := ast.Unparen(call.Fun).(*ast.Ident); ok && id.Name == "append" && info.Uses[id] == types.Universe.Lookup("append") {
+					hit = true
 				}
 			}
-			return false
-		}
-		switch r := ast.Unparen(as.Rhs[0]).(type) {
-		case *ast.CallExpr:
-			if isFunc(callee(info, r), globPath, "Match") && len(r.Args) == 2 && selField(info, r.Args[0]) == roamID && rootedAt(info, r.Args[1], cand) && underPattern(false) {
-				okGlob = true
-				if id, ok := as.Lhs[0].(*ast.Ident); ok {
-					filterVar = info.ObjectOf(id)
+			return true
+		})
+		return hit
+	}
+	// the situation: roam.pattern (P), the result of glob.Match(roam.id, …) (M), roam.id == … (E).
+	// idOperands collects what the fence id is compared with.
+	type operand struct {
+		e    ast.Expr
+		info *types.Info
+		body ast.Node
+	}
+	var operands []operand
+	scen := func(P, M, E byte) Scenario {
+		return func(si *types.Info, body ast.Node) func(e ast.Expr) byte {
+			return func(e ast.Expr) byte {
+				e = ast.Unparen(e)
+				switch x := e.(type) {
+				case *ast.SelectorExpr:
+					if selField(si, x) == pattern {
+						return P
+					}
+				case *ast.CallExpr:
+					if isFunc(callee(si, x), globPath, "Match") && len(x.Args) == 2 && selField(si, x.Args[0]) == roamID {
+						operands = append(operands, operand{x.Args[1], si, body})
+						return M
+					}
+				case *ast.BinaryExpr:
+					if x.Op == token.EQL || x.Op == token.NEQ {
+						for _, side := range [][2]ast.Expr{{x.X, x.Y}, {x.Y, x.X}} {
+							if selField(si, side[0]) == roamID {
+								operands = append(operands, operand{side[1], si, body})
+								v := E
+								if x.Op == token.NEQ && (v == '0' || v == '1') {
+									v = '0' + '1' - v
+								}
+								return v
+							}
+						}
+					}
 				}
-			}
-		case *ast.BinaryExpr:
-			if r.Op == token.EQL && underPattern(true) {
-				if selField(info, r.X) == roamID && rootedAt(info, r.Y, cand) || selField(info, r.Y) == roamID && rootedAt(info, r.X, cand) {
-					okEq = true
-				}
+				return '?'
 			}
 		}
 	}
-	c.check(okGlob && okEq, "filter-shape", lit.Pos(), "glob.Match(roam.id, candidate id) when roam.pattern, equality otherwise", "the id filter does not use glob.Match under roam.pattern and equality otherwise")
-	// the append is dominated by the filter being true
-	appends := fg.Find(func(n ast.Node) bool {
-		call, ok := n.(*ast.CallExpr)
-		if !ok {
-			return false
-		}
-		id, ok := ast.Unparen(call.Fun).(*ast.Ident)
-		return ok && id.Name == "append"
-	})
-	okDom := len(appends) > 0 && filterVar != nil
-	for _, a := range appends {
-		d := false
-		for _, f := range fg.identFacts(fg.DominatingFacts(a)) {
-			_ = f
-		}
-		for k, v := range fg.identFacts(fg.DominatingFacts(a)) {
-			if k.obj == filterVar && !k.isNil && v {
-				d = true
+	reach := func(P, M, E byte) (bool, []ast.Node) {
+		return c.scenReach(fg, lit.Body, scen(P, M, E), Loc{}, isAppend, nil)
+	}
+	patMiss, w1 := reach('1', '0', '?')
+	eqMiss, w2 := reach('0', '?', '0')
+	patHit, _ := reach('1', '1', '?')
+	eqHit, _ := reach('0', '?', '1')
+	switch {
+	case len(operands) == 0:
+		c.bad("filter-shape", lit.Pos(), "the id filter does not use glob.Match under roam.pattern and equality otherwise: roam.id is compared with nothing on the way to the append")
+	case !patHit || !eqHit:
+		c.bad("filter-shape", lit.Pos(), "a candidate whose id matches the roaming id (pattern match: reported %v; equality: reported %v) is not reported", patHit, eqHit)
+	default:
+		// what roam.id is compared with is the candidate's id
+		okOps := true
+		for _, op := range operands {
+			e := op.e
+			if id, ok := ast.Unparen(e).(*ast.Ident); ok {
+				e = resolveLocal(op.info, op.body, id)
+			}
+			if rootedAt(op.info, e, cand) {
+				continue
+			}
+			// a parameter of a helper: the argument at the call in the callback
+			okArg := false
+			if id, ok := ast.Unparen(e).(*ast.Ident); ok {
+				if pv, ok := op.info.ObjectOf(id).(*types.Var); ok {
+					inspectNoLit(lit.Body, func(n ast.Node) bool {
+						call, ok := n.(*ast.CallExpr)
+						if !ok {
+							return true
+						}
+						f := callee(info, call)
+						if f == nil {
+							return true
+						}
+						sig := f.Type().(*types.Signature)
+						for i := 0; i < sig.Params().Len() && i < len(call.Args); i++ {
+							if sig.Params().At(i) == pv {
+								a := call.Args[i]
+								if aid, ok := ast.Unparen(a).(*ast.Ident); ok {
+									a = resolveLocal(info, lit.Body, aid)
+								}
+								if rootedAt(info, a, cand) {
+									okArg = true
+								}
+							}
+						}
+						return true
+					})
+				}
+			}
+			if !okArg {
+				okOps = false
 			}
 		}
-		if !d {
-			okDom = false
-		}
+		c.check(okOps, "filter-shape", lit.Pos(), "glob.Match(roam.id, candidate id) when roam.pattern, equality otherwise", "the id filter does not use glob.Match under roam.pattern and equality otherwise: roam.id is compared with something other than the candidate's id")
 	}
-	c.check(okDom, "filter-dominates-append", lit.Pos(), "the append is dominated by the id filter being true", "a candidate is reported without the id filter having matched")
+	var w []ast.Node
+	if patMiss {
+		w = w1
+	} else if eqMiss {
+		w = w2
+	}
+	c.checkPath(!patMiss && !eqMiss, "filter-dominates-append", lit.Pos(), w,
+		"no candidate is appended when roam.pattern and glob.Match fails, or when !roam.pattern and the ids differ", "a candidate is reported without the id filter having matched")
 }
 
 // ---------------------------------------------------------------------------
@@ -1164,7 +908,7 @@ func ruleAreaSiblings(c *Ctx) {
 
 func init() {
 	register(&Rule{ID: "R20.remove-revisits-slot", Props: []string{"C20", "C05"}, Floor: 1,
-		Text: "in every index loop `for i := …; i < len(X); i++` of internal/server and internal/collection whose body removes element i from X (swap-remove X[i] = X[len(X)-1]; X = X[:len(X)-1], or X = append(X[:i], X[i+1:]...)), every path from the removal to the loop's increment passes i--: the element moved into slot i is examined too (in fenceMatchRoam a skipped dwelling neighbour is reported as faraway)",
+		Text: "in every index loop `for i := …; i < len(X); …` of internal/server and internal/collection whose body removes element i from X (swap-remove X[i] = X[len(X)-1]; X = X[:len(X)-1], or X = append(X[:i], X[i+1:]...)), on every path from the removal to the next test of the loop condition the net change of i (increments minus decrements, wherever they stand) is zero: the element moved into slot i is examined too (in fenceMatchRoam a skipped dwelling neighbour is reported as faraway)",
 		Run:  ruleRemoveRevisits})
 }
 
@@ -1176,7 +920,7 @@ func ruleRemoveRevisits(c *Ctx) {
 			var fg *FlowGraph
 			ast.Inspect(fn.Decl.Body, func(x ast.Node) bool {
 				fs, ok := x.(*ast.ForStmt)
-				if !ok || fs.Cond == nil || fs.Post == nil {
+				if !ok || fs.Cond == nil {
 					return true
 				}
 				be, ok := ast.Unparen(fs.Cond).(*ast.BinaryExpr)
@@ -1192,13 +936,6 @@ func ruleRemoveRevisits(c *Ctx) {
 					return true
 				}
 				if id, ok := ast.Unparen(lc.Fun).(*ast.Ident); !ok || id.Name != "len" {
-					return true
-				}
-				inc, ok := fs.Post.(*ast.IncDecStmt)
-				if !ok || inc.Tok != token.INC {
-					return true
-				}
-				if pid, ok := ast.Unparen(inc.X).(*ast.Ident); !ok || info.ObjectOf(pid) != info.ObjectOf(iv) {
 					return true
 				}
 				X := lc.Args[0]
@@ -1253,31 +990,76 @@ func ruleRemoveRevisits(c *Ctx) {
 				if fg == nil {
 					fg = newFlowGraph(info, fn.Decl.Body)
 				}
-				postLoc := fg.LocOf(fs.Post)
+				condLoc := fg.LocOf(fs.Cond)
 				for _, rm := range removals {
 					n++
 					key := funcName(fn.Obj) + "→" + exprStr(X) + "[" + iv.Name + "]"
 					rl := fg.LocOf(rm)
-					if !rl.Valid() || !postLoc.Valid() {
-						c.und(key, rm.Pos(), "removal or loop increment not located in the flow graph")
+					if !rl.Valid() || !condLoc.Valid() {
+						c.und(key, rm.Pos(), "removal or loop condition not located in the flow graph")
 						continue
 					}
-					skip, _ := fg.Reach(PathQuery{From: rl,
-						Target: func(l Loc) bool { return l.Block == postLoc.Block && l.Idx == postLoc.Idx },
-						Avoid: func(l Loc) bool {
-							hit := false
-							inspectNoLit(l.Node, func(z ast.Node) bool {
-								if d, ok := z.(*ast.IncDecStmt); ok && d.Tok == token.DEC && isI(d.X) {
-									hit = true
+					// the net change of the index between the removal and the next evaluation of the loop
+					// condition must be zero: the element that took the removed one's place is examined next
+					type st struct {
+						b int32
+						d int
+					}
+					seen := map[st]bool{}
+					arrivals := map[int]bool{}
+					unknown := false
+					var walk func(b *cfgBlock, from int, d int)
+					walk = func(b *cfgBlock, from int, d int) {
+						for i := from; i < len(b.Nodes); i++ {
+							if b == condLoc.Block && i == condLoc.Idx {
+								arrivals[d] = true
+								return
+							}
+							inspectNoLit(b.Nodes[i], func(z ast.Node) bool {
+								switch y := z.(type) {
+								case *ast.IncDecStmt:
+									if isI(y.X) {
+										if y.Tok == token.INC {
+											d++
+										} else {
+											d--
+										}
+									}
+								case *ast.AssignStmt:
+									for _, l := range y.Lhs {
+										if isI(l) {
+											unknown = true
+										}
+									}
 								}
 								return true
 							})
-							return hit
-						}})
-					if skip {
-						c.bad(key, rm.Pos(), "element %s is removed from %s inside the index loop and the loop increment is reachable without %s--: the element that takes its place is never examined", iv.Name, exprStr(X), iv.Name)
-					} else {
-						c.ok(key, rm.Pos(), true, "every path from the removal to the increment passes %s--", iv.Name)
+						}
+						if d < -3 || d > 3 {
+							unknown = true
+							return
+						}
+						for _, s := range b.Succs {
+							k := st{s.Index, d}
+							if !seen[k] {
+								seen[k] = true
+								walk(s, 0, d)
+							}
+						}
+					}
+					walk(rl.Block, rl.Idx+1, 0)
+					var ds []int
+					for d := range arrivals {
+						ds = append(ds, d)
+					}
+					sort.Ints(ds)
+					switch {
+					case unknown:
+						c.und(key, rm.Pos(), "the index %s is assigned (not only incremented or decremented) between the removal and the loop condition", iv.Name)
+					case len(ds) == 1 && ds[0] == 0:
+						c.ok(key, rm.Pos(), true, "on every path from the removal to the next test of the loop condition the net change of %s is zero: the slot is examined again", iv.Name)
+					default:
+						c.bad(key, rm.Pos(), "element %s is removed from %s inside the index loop and the loop condition is reached again with %s changed by %v: the element that takes its place is never examined", iv.Name, exprStr(X), iv.Name, ds)
 					}
 				}
 				return true
